@@ -140,11 +140,24 @@ func perturb(level int32) {
 	}
 }
 
-func (perturbLogger) Errorf(string, ...interface{}) { perturb(1) }
-func (perturbLogger) Print(...interface{})          { perturb(1) }
-func (perturbLogger) Printf(string, ...interface{}) { perturb(1) }
-func (perturbLogger) Infof(string, ...interface{})  { perturb(2) }
-func (perturbLogger) Debugf(string, ...interface{}) { perturb(3) }
+// logFormats: the logger formats every message before discarding it (what a real logger at debug level does).
+var logFormats int32
+
+func formatLog(format string, args []interface{}) {
+	if atomic.LoadInt32(&logFormats) == 1 {
+		if format == "" {
+			_ = fmt.Sprint(args...)
+		} else {
+			_ = fmt.Sprintf(format, args...)
+		}
+	}
+}
+
+func (perturbLogger) Errorf(f string, a ...interface{}) { formatLog(f, a); perturb(1) }
+func (perturbLogger) Print(a ...interface{})            { formatLog("", a); perturb(1) }
+func (perturbLogger) Printf(f string, a ...interface{}) { formatLog(f, a); perturb(1) }
+func (perturbLogger) Infof(f string, a ...interface{})  { formatLog(f, a); perturb(2) }
+func (perturbLogger) Debugf(f string, a ...interface{}) { formatLog(f, a); perturb(3) }
 
 func armPerturb(who, micros, level int) func() {
 	atomic.StoreInt32(&perturbMicros, int32(micros))
